@@ -156,6 +156,18 @@ func (h *heapRun) applyStats(o *obj, st Step, ret map[string]interface{}) bool {
 			idx = append(idx, o.sb.AlphabetCharToIndex(byte(c)))
 		}
 		ret["idx"] = idx
+	case "ProfileOnly":
+		// the per-site counts of ONE character, read from the count profile (0 where the profile does not know it)
+		p := align.NewCountProfileFromAlignment(needAlign(o))
+		cnt := []int{}
+		for site := 0; site < needAlign(o).Length(); site++ {
+			c, err := p.Count(byte(ai(a, "c")), site)
+			if err != nil {
+				c = 0
+			}
+			cnt = append(cnt, c)
+		}
+		ret["n"] = cnt
 	case "CountProfile":
 		p := align.NewCountProfileFromAlignment(needAlign(o))
 		l := []map[string]interface{}{}
